@@ -37,15 +37,20 @@ ResultClauses(e, I, R, tag) ==
     LET fwd == I.dir = "fwd"  free == ~BwdFixed(I) IN
     /\ Report(\A t \in Tasks(I) : R.start[t] # Missing /\ R.end[t] # Missing, e, "C06.dated", tag)
     /\ Report(~R.overflow, e, "C03.row", <<"ledger longer than any input needs", tag>>)
+    /\ Report(R.foreign = 0, e, "C03.row", <<"rows for objects that are no tasks of the result", R.foreign, tag>>)
     /\ \A t \in Tasks(I) : Report(C07_Order(I, R, t), e, "C07.order", <<t, tag>>)
+    (* the clauses about the ledger alone do not wait for every task to be dated *)
+    /\ \A t \in Tasks(I) :
+         /\ (Working(I, t) /\ free) => Report(C04_Work(I, R, t), e, "C04.work", <<t, tag>>)
+         /\ ~Working(I, t) => Report(C04_NoRows(I, R, t), e, "C04.norows", <<t, tag>>)
+    /\ \A j \in RowIdx(R) : Report(C03_Row(I, R, j), e, "C03.row", <<j, tag>>)
+    /\ Report(C03_Capacity(I, R), e, "C03.capacity", tag)
     /\ (\A t \in Tasks(I) : R.start[t] # Missing /\ R.end[t] # Missing) =>
        /\ \A t \in Tasks(I) :
             /\ (fwd /\ FreeStart(I, t)) => Report(C02_NotBefore(I, R, t), e, "C02.notbefore", <<t, tag>>)
-            /\ (fwd /\ IsLeaf(I, t) /\ IsMs(I, t) /\ ~StartFixed(I, t) /\ ~EndFixed(I, t))
+            /\ (fwd /\ IsLeaf(I, t) /\ IsMs(I, t))
                   => Report(C02_Milestone(I, R, t), e, "C02.milestone", <<t, tag>>)
-            /\ (Working(I, t) /\ free) => /\ Report(C04_Work(I, R, t), e, "C04.work", <<t, tag>>)
-                                           /\ Report(C04_Dates(I, R, t), e, "C04.dates", <<t, tag>>)
-            /\ ~Working(I, t) => Report(C04_NoRows(I, R, t), e, "C04.norows", <<t, tag>>)
+            /\ (Working(I, t) /\ free) => Report(C04_Dates(I, R, t), e, "C04.dates", <<t, tag>>)
             /\ (fwd /\ SchedLeaf(I, t)) => Report(C04_FixedKept(I, R, t), e, "C04.fixed", <<t, tag>>)
             /\ ~IsLeaf(I, t) => Report(C07_RollUp(I, R, t), e, "C07.rollup", <<t, tag>>)
             /\ (fwd /\ I.balance /\ FreeStart(I, t)) => Report(C08_Tight(I, R, t), e, "C08.tight", <<t, tag>>)
@@ -59,8 +64,6 @@ ResultClauses(e, I, R, tag) ==
                   => Report(C09_Encoding(I, R, t), e, "C09.encoding", <<t, tag>>)
        /\ Report(C07_Wbs(I, R), e, "C07.wbs", tag)
        /\ (fwd /\ I.balance) => Report(C08_WbsOrder(I, R), e, "C08.wbsorder", tag)
-       /\ \A j \in RowIdx(R) : Report(C03_Row(I, R, j), e, "C03.row", <<j, tag>>)
-       /\ Report(C03_Capacity(I, R), e, "C03.capacity", tag)
 
 JudgeOk(e) ==
     LET I == e.I  R == e.R IN
